@@ -774,14 +774,20 @@ def x_rawlimit(p):
     mn, mx = d(p["min"]), d(p["max"])
     init = [d(k) for k in p["init"]]
     n = len(init)
+    if p.get("init_dtype"):
+        # the caller's table of initial volumes has a narrower floating point type
+        init = np.array(init, dtype=getattr(np, p["init_dtype"]))
     steps = []
     viol_up = viol_down = False
     try:
+        if p.get("init_dtype"):
+            # (values of a narrow table may lie a rounding step beyond the decimal limits: widen the limits to hold them)
+            mn, mx = min(mn, float(np.min(init))), max(mx, float(np.max(init)))
         lw = rt.Labware("L", 1, n, min_volume=mn, max_volume=mx, initial_volumes=init) if p["kind"] == "plate" else \
             rt.Trough("L", 4, n, min_volume=mn, max_volume=mx, initial_volumes=init)
         wl = rt.EvoWorklist(max_volume=10**6) if p.get("via") == "worklist" else None
         for st in p["steps"]:
-            before = np.array(lw.volumes, copy=True)
+            before = np.array(lw.volumes, dtype=np.float64)   # exact widening: the comparison below is made on Python floats
             well = wid(0, st["col"])
             x = d(st["amount"])
             exc = None
@@ -792,7 +798,7 @@ def x_rawlimit(p):
                     wl.aspirate(lw, well, x) if wl is not None else lw.remove(well, x)
             except Exception as e:  # noqa
                 exc = e
-            after = np.array(lw.volumes)
+            after = np.array(lw.volumes, dtype=np.float64)
             up = bool(np.any((after > before) & (after > mx)))
             down = bool(np.any((after < before) & (after < mn)))
             viol_up, viol_down = viol_up or up, viol_down or down
